@@ -26,7 +26,6 @@ import (
 
 	"github.com/goccy/go-json"
 
-	"seata.apache.org/seata-go/pkg/datasource/sql/datasource"
 	"seata.apache.org/seata-go/pkg/datasource/sql/types"
 	"seata.apache.org/seata-go/pkg/datasource/sql/undo"
 	"seata.apache.org/seata-go/pkg/util/log"
@@ -132,17 +131,15 @@ func (b *BaseExecutor) queryCurrentRecords(ctx context.Context, conn *sql.Conn) 
 	}
 	rowImages := make([]types.RowImage, 0)
 	for rows.Next() {
-		columnTypes, err := rows.ColumnTypes()
+		colNames, err := rows.Columns()
 		if err != nil {
-			return nil, err
-		}
-		slice := datasource.GetScanSlice(columnTypes)
-		if err = rows.Scan(slice...); err != nil {
 			return nil, err
 		}
 
-		colNames, err := rows.Columns()
-		if err != nil {
+		// scan the current rows the way the images were scanned (by column data type), so that the
+		// comparison does not trip over NULLs or over a different Go type for the same value
+		slice := getScanSliceByMeta(colNames, tableMeta)
+		if err = rows.Scan(slice...); err != nil {
 			return nil, err
 		}
 
@@ -151,6 +148,12 @@ func (b *BaseExecutor) queryCurrentRecords(ctx context.Context, conn *sql.Conn) 
 			actualVal := val
 			if v, ok := val.(driver.Valuer); ok {
 				actualVal, _ = v.Value()
+			} else if raw, ok := val.(*sql.RawBytes); ok {
+				if *raw == nil {
+					actualVal = nil
+				} else {
+					actualVal = append([]byte{}, *raw...)
+				}
 			}
 			columns = append(columns, types.ColumnImage{
 				ColumnName: colNames[i],
@@ -164,6 +167,27 @@ func (b *BaseExecutor) queryCurrentRecords(ctx context.Context, conn *sql.Conn) 
 	}
 	image.Rows = rowImages
 	return &image, nil
+}
+
+// getScanSliceByMeta picks scan destinations by the column's data type, like the AT executors do
+// when they build the before and after images
+func getScanSliceByMeta(columnNames []string, tableMeta *types.TableMeta) []interface{} {
+	scanSlice := make([]interface{}, 0, len(columnNames))
+	for _, columnName := range columnNames {
+		switch strings.ToUpper(tableMeta.Columns[columnName].DatabaseTypeString) {
+		case "VARCHAR", "NVARCHAR", "VARCHAR2", "CHAR", "TEXT", "JSON", "TINYTEXT":
+			scanSlice = append(scanSlice, &sql.NullString{})
+		case "BIT", "INT", "LONGBLOB", "SMALLINT", "TINYINT", "BIGINT", "MEDIUMINT":
+			scanSlice = append(scanSlice, &sql.NullInt64{})
+		case "DATE", "DATETIME", "TIME", "TIMESTAMP", "YEAR":
+			scanSlice = append(scanSlice, &sql.NullTime{})
+		case "DECIMAL", "DOUBLE", "FLOAT":
+			scanSlice = append(scanSlice, &sql.NullFloat64{})
+		default:
+			scanSlice = append(scanSlice, &sql.RawBytes{})
+		}
+	}
+	return scanSlice
 }
 
 func (b *BaseExecutor) parsePkValues(rows []types.RowImage, pkNameList []string) map[string][]types.ColumnImage {
